@@ -289,7 +289,11 @@ func (p *program) loadProgram() error {
 
 	p.loadedPackages = pkgs
 	p.ctx = linter.NewContext(p.fset, sizes)
-	p.ctx.SetGoVersion(p.goVersion)
+	goVersion, err := linter.ParseGoVersion(p.goVersion)
+	if err != nil {
+		return err
+	}
+	p.ctx.GoVersion = goVersion
 
 	return nil
 }
